@@ -124,3 +124,13 @@ Definition mp_canon_head (h : head) : head :=
   | HInt KU64 z => if (z <=? 127)%Z then HInt KI64 z else HInt KU64 z
   | _ => h
   end.
+
+(** Headers the layout writes faithfully: integers of their kind's range,
+    binary64 bit patterns, lengths below 2^32. *)
+Definition mp_wf_head (h : head) : bool :=
+  match h with
+  | HNull | HBool _ => true
+  | HInt k z => int_in_range k z
+  | HFloat f => f <? 2 ^ 64
+  | HStr n | HBin n | HArr n | HMap n => n <? 2 ^ 32
+  end.
